@@ -16,8 +16,7 @@ How the rules stay indifferent to behaviour-preserving refactorings (shared with
 import harness
 from facts import norm, call_name, short, subnodes, matches_on, arm_variants, peel_ty, str_lits_in
 from prov import Prov, has_field, has_call
-from templates import (stateful_guards, memo_key_gaps, constant_params, field_coverage, enclosing_contexts, variant_table, arm_value,
-                       inlined, scope_fns)
+from templates import field_coverage, enclosing_contexts, variant_table, arm_value, inlined, scope_fns
 
 CK = "nitrogql_checker::"
 A = "nitrogql_ast::"
@@ -225,6 +224,8 @@ class KindEval:
         self.seeds = list(seeds)       # [(type prefix, abstract value)] for unknown expressions of that type
         self.node = {}                 # id -> (node, Fn) for the events
         self.unit_variants = set()     # names of payload-free variants met as expressions
+        self.closures = {}             # id -> (closure node, Fn) of closures met as values
+        self.in_closure = []
         self.stack = []
         self.steps = 0
         self._reach = {}
@@ -430,8 +431,10 @@ class KindEval:
         return outs
 
     def _Closure(self, n, env, evs):
-        # a closure *value* that is not an argument of a call: body not run here
-        return [("ok", None, n, env, evs, None)]
+        # a closure *value* that is not an argument of a call: body not run here, but remembered — a later call of the local it is
+        # bound to runs it (`let report = |names| ..; report(x)`)
+        self.closures[id(n)] = (n, self.stack[-1])
+        return [("ok", ("c", id(n)), n, env, evs, None)]
 
     def _closure_arg(self, n, env, evs):
         """a closure handed to a call may be run by it: not at all, or once (parameters unknown)"""
@@ -639,7 +642,30 @@ class KindEval:
                          "core::option::expect_failed")):
             states, abn = self._seq(n["args"], env, evs)
             return [("div", None, n, e, v, None) for _, e, v in states] + abn
+        if f.get("k") == "Path" and "local" in f:
+            cv = env.get(f["local"])
+            if cv is not None and cv[0] == "c" and cv[1] in self.closures and cv[1] not in self.in_closure and len(self.in_closure) < 3:
+                return self._call_closure(n, self.closures[cv[1]][0], n["args"], env, evs)
         return self._invoke(n, c, n["args"], env, evs)
+
+    def _call_closure(self, n, clo, argnodes, env, evs):
+        """a call of a local closure: its body runs in the environment of the call (captured locals keep their known values)"""
+        states, abn = self._seq(argnodes, env, evs)
+        outs = list(abn)
+        self.in_closure.append(id(clo))
+        try:
+            for vals, e, v in states:
+                e2 = e
+                for p, a in zip(clo.get("params", []), vals):
+                    _, e2 = self._test(p, a, e2)
+                for o in self.ev(clo["body"], e2, v):
+                    if o[0] in ("ok", "ret"):
+                        outs.append(("ok", o[1], o[2], e, o[4], None))
+                    elif o[0] == "div":
+                        outs.append(("div", None, n, e, o[4], None))
+        finally:
+            self.in_closure.pop()
+        return outs
 
     def _MethodCall(self, n, env, evs):
         c = call_name(n) or ""
@@ -941,9 +967,45 @@ def diag_flow(P, scope, f, i, _seen=None):
         elif k in ("Break", "Assign", "AssignOp", "Loop", "Binary", "Index"):
             return (None, "flows through `%s`" % k)
         elif k == "Closure":
-            # the value the closure yields: carried by the adaptor the closure is handed to
-            pass
+            # the value the closure yields: carried by the adaptor the closure is handed to — or, for a closure bound to a local
+            # (`let report = |..| diagnostic;`), returned to every call of that local
+            calls = local_closure_calls(f, pi)
+            if calls is not None:
+                if not calls:
+                    return ("dropped", "built by a local closure that is never called")
+                n = 0
+                for j in calls:
+                    r = diag_flow(P, scope, f, j, _seen)
+                    if r[0] != "sink":
+                        return r
+                    n += r[1]
+                return ("sink", n)
         cur, ci = p, pi
+
+
+def local_closure_calls(f, ci):
+    """for a closure (node index ci) that is the initialiser of `let name = |..| ..`: the node indices of the calls `name(..)`;
+    None if the closure is not bound that way"""
+    acc = f.nodes()
+    pi = acc[ci][1]
+    if pi < 0:
+        return None
+    p = acc[pi][0]
+    if not (p.get("k") == "Let" and p.get("init") is acc[ci][0] and p["pat"].get("k") == "Binding"):
+        return None
+    lid = p["pat"]["local"]
+    return [j for j, (x, _) in enumerate(acc) if x.get("k") == "Call" and x.get("f", {}).get("k") == "Path" and x["f"].get("local") == lid]
+
+
+def enclosing_local_closure(f, i):
+    """index of the innermost closure around nodes()[i] that is bound to a local by `let`, or None"""
+    acc = f.nodes()
+    p = acc[i][1]
+    while p >= 0:
+        if acc[p][0].get("k") == "Closure" and local_closure_calls(f, p) is not None:
+            return p
+        p = acc[p][1]
+    return None
 
 
 def _returned(P, scope, f, seen):
@@ -1182,6 +1244,72 @@ def dispatch_reaches(P, f, adt, variant):
     return any(P.fns[e[1]].crate == f.crate and _takes(P.fns[e[1]], payload) for _, evs, _ in paths for e in evs)
 
 
+def every_element_checked(P, R, disp, adt):
+    """Inside the dispatcher, whether an element is handed to the function that checks its kind may depend on its *kind* only: a
+    condition around (or an early exit before) that call which reads the element's own content makes the rules skip some
+    elements of the kind ("every selection / definition is validated")."""
+    g = inlined(P, disp)
+    pv = MProv(g)
+    for var in adt.variants:
+        if not var["fields"]:
+            continue
+        payload = norm(var["fields"][0]["ty"]).split("<")[0].lstrip("&")
+        sites = [i for i, (x, _) in enumerate(g.nodes()) if x.get("k") in ("Call", "MethodCall") and (call_name(x) or "") in P.fns
+                 and P.fns[call_name(x)].crate == disp.crate and _takes(P.fns[call_name(x)], payload) and call_name(x) != disp.path]
+        if not sites:
+            continue
+        bad = []
+        for i in sites:
+            for ge in guard_exprs(g, i):
+                t = peel_ty(ge.get("t") or "").split("<")[0]
+                if t == adt.path:
+                    continue       # the dispatch on the kind itself
+                reads = sorted({"%s.%s" % (a[1].split("::")[-1], a[2]) for a in pv.atoms(ge) if a[0] == "field" and a[1] == payload})
+                if reads:
+                    bad.append((short(call_name(g.nodes()[i][0])), reads))
+        R.check("R03-a", "every:%s::%s" % (adt.path.split("::")[-1], var["name"]), not bad,
+                "every %s is handed to its checker, whatever it contains" % var["name"],
+                "%s applies %s only under a condition that reads %s of the %s itself: the ones for which the condition fails are never "
+                "validated (e.g. a fragment imported from another file)"
+                % (disp.path, bad[0][0] if bad else "", bad[0][1] if bad else "", var["name"]), loc=disp.loc())
+
+
+LOSSY_ADAPTORS = {"filter", "skip", "skip_while", "take", "take_while", "step_by", "nth", "last", "find", "max_by_key", "min_by_key"}
+
+
+def documents_all_checked(P, R):
+    """the callers of check_operation_document (the CLI) hand it every operation document: no selecting adaptor between the
+    collection of documents and the call"""
+    e = entry(P)
+    sites = []
+    for f in P.fns.values():
+        if f.derived or f.kind == "Closure" or f.crate == e.crate or "::tests" in f.path:
+            continue
+        for i, (x, _) in enumerate(f.nodes()):
+            if x.get("k") in ("Call", "MethodCall") and call_name(x) == e.path:
+                sites.append((f, i))
+    if not sites:
+        R.undecided("R03-a", "every:document", "no caller of check_operation_document outside the checker crate")
+        return
+    for f, i in sites:
+        acc = f.nodes()
+        lossy = []
+        child, p = i, acc[i][1]
+        while p >= 0:
+            n = acc[p][0]
+            if n.get("k") == "MethodCall" and any(a is acc[child][0] for a in n["args"]) and acc[child][0].get("k") == "Closure":
+                # the call sits in a closure handed to an adaptor: what the receiver chain did to the elements before
+                r = n["recv"]
+                while r.get("k") == "MethodCall":
+                    if r.get("method") in LOSSY_ADAPTORS:
+                        lossy.append(r["method"])
+                    r = r["recv"]
+            child, p = p, acc[p][1]
+        R.check("R03-a", "every:document@%s" % short(f.path), not lossy, "every operation document reaches check_operation_document",
+                "%s selects among the operation documents with `.%s(..)` before check_operation_document: the documents left out are "
+                "never checked (fragment definitions in a skipped file are validated nowhere)" % (f.path, "/".join(lossy)), loc=f.loc())
+
+
 def r03a(P, R):
     scope = checker_scope(P)
     R.count("functions_reachable_from_check_operation_document", len(scope))
@@ -1252,15 +1380,32 @@ def r03a(P, R):
                            "%s hands a %s to a function that takes it" % (short(disp.path), v_), "",
                            "no path of %s was found that hands a %s on to a function taking it" % (short(disp.path), v_), loc=disp.loc())
             R.floor("R03-a", "matches over " + enum.split("::")[-1], sites if reached != allv else max(sites, 1), 1)
+            if disp is not None:
+                every_element_checked(P, R, disp, adt)
+    documents_all_checked(P, R)
 
 
-def _stack_params(f, pv=None):
-    """parameters that carry the stack of fragment names being expanded: a collection of strings"""
+def _is_name_stack(t):
+    t = (t or "").replace(" ", "")
+    return "str" in t and any(c in t for c in ("[", "Vec<", "HashSet<", "BTreeSet<", "IndexSet<", "VecDeque<")) and "HashMap<" not in t
+
+
+def _stack_params(f, pv=None, P=None):
+    """parameters that carry the stack of fragment names being expanded: a collection of strings, or (given P) a checker-internal
+    struct with such a field -> [(index, parameter name, (struct path, field) | None)]"""
     out = []
     for i, (p, t) in enumerate(zip(f.params, _sig(f))):
-        if p.get("k") == "Binding" and "str" in t and any(c in t for c in ("[", "Vec<", "HashSet<", "BTreeSet<", "IndexSet<", "VecDeque<")) \
-                and "HashMap<" not in t:
-            out.append((i, pv.params.get(p["local"]) if pv else p.get("name")))
+        if p.get("k") != "Binding":
+            continue
+        name = pv.params.get(p["local"]) if pv else p.get("name")
+        if _is_name_stack(t):
+            out.append((i, name, None))
+        elif P is not None:
+            for ap, adt in P.adts.items():
+                if ap.startswith(CK) and adt.kind == "Struct" and ap in t:
+                    for fld, ft in adt.field_types().items():
+                        if _is_name_stack(ft):
+                            out.append((i, name, (ap, fld)))
     return out
 
 
@@ -1320,7 +1465,7 @@ def r03b(P, R):
     cfs = role_fn(P, CK + "operation_checker::check_fragment_spread")
     g = inlined(P, cfs)
     pv = MProv(g)
-    stack = {nm for _, nm in _stack_params(cfs, pv)}
+    stack = _stack_params(cfs, pv, P)
     sites = [i for i, (x, _) in enumerate(g.nodes()) if x.get("k") == "Struct" and "rest" not in x and norm(x.get("variant", "")).endswith("::RecursingFragmentSpread")]
     FS = A + "selection_set::FragmentSpread"
     if not anchors_present(P, R, "R03-b", "spread-cycle-guard", [(FS, "fragment_name")], loc=cfs.loc()):
@@ -1332,7 +1477,8 @@ def r03b(P, R):
         for i in sites:
             for ge in guard_exprs(g, i):
                 a = pv.deep_atoms(ge)
-                if any(("param", s) in a for s in stack) and has_field(a, FS, "fragment_name"):
+                on_stack = any(("param", nm) in a and (fld is None or ("field", fld[0], fld[1]) in a) for _, nm, fld in stack)
+                if on_stack and has_field(a, FS, "fragment_name"):
                     ok = True
         R.check("R03-b", "spread-cycle-guard", ok, "a fragment already on the spread stack is reported (RecursingFragmentSpread) instead of re-entered",
                 "no condition guarding RecursingFragmentSpread in check_fragment_spread derives from both the stack of open spreads and the "
@@ -1371,7 +1517,7 @@ def r03b(P, R):
                 descents.append((c, callee))
     verdicts = []
     for c, callee in descents:
-        sp = _stack_params(callee)
+        sp = _stack_params(callee, None, P)
         args = all_args(c)
         if not sp or sp[0][0] >= len(args):
             verdicts.append(None)
@@ -1681,7 +1827,7 @@ def r03f(P, R):
     counts, eff = {}, {}
     for f in scope:
         w = None
-        for x in f.walk():
+        for i, (x, _) in enumerate(f.nodes()):
             v = None
             if x.get("k") == "Struct" and "rest" not in x and norm(x.get("adt", "")) == ERR:
                 v = norm(x["variant"]).split("::")[-1]
@@ -1690,8 +1836,11 @@ def r03f(P, R):
             if v is not None:
                 if w is None:
                     w = site_weight(P, scope, f)
+                # a site inside a local builder closure stands for one application per call of the closure
+                ci = enclosing_local_closure(f, i)
+                k = len(local_closure_calls(f, ci)) if ci is not None else 1
                 counts[v] = counts.get(v, 0) + 1
-                eff[v] = eff.get(v, 0) + w
+                eff[v] = eff.get(v, 0) + w * k
     for v, need in sorted(OP_RULE_SITES.items()):
         got, e = counts.get(v, 0), eff.get(v, 0)
         if v not in declared:
@@ -1770,6 +1919,54 @@ def recursion_args(P, R, rule, fns):
     return n
 
 
+def location_flags(P, R, fns):
+    """A function that recurses over the structure of a type (`&Type`) and takes a boolean that its outside callers compute from
+    the *same definition* whose `.type` they pass (a property of the location: "has a default", "is deprecated") must not hand that
+    boolean unchanged to the recursive call that descends into the items of a list: an item is another position, the attribute
+    of the enclosing argument / field does not describe it."""
+    scope = [f for f in fns if f.kind in ("Fn", "AssocFn")]
+    for f in scope:
+        tys = _sig(f)
+        ti = [i for i, t in enumerate(tys) if T_TYPE in t]
+        bi = [i for i, t in enumerate(tys) if t == "bool"]
+        rec = [c for c in f.walk() if c.get("k") in ("Call", "MethodCall") and call_name(c) == f.path]
+        if len(ti) != 1 or not bi or not rec:
+            continue
+        outside = [(g, c) for g, _, c in call_sites(scope, f.path) if g.path != f.path]
+        pv = MProv(f)
+        for b in bi:
+            # is parameter b an attribute of the location whose type is passed?
+            owner = None
+            for g, c in outside:
+                gpv = MProv(g)
+                args = all_args(c)
+                if max(b, ti[0]) >= len(args):
+                    continue
+                t_owner = {a[1] for a in gpv.atoms(args[ti[0]]) if a[0] == "field" and a[2] in ("type", "r#type")}
+                b_fields = {(a[1], a[2]) for a in gpv.atoms(args[b]) if a[0] == "field" and a[1] in t_owner and a[2] not in ("type", "r#type")}
+                if b_fields:
+                    owner = sorted(b_fields)[0]
+            if owner is None or f.params[b].get("k") != "Binding":
+                continue
+            bname = pv.params.get(f.params[b]["local"])
+            for ci, c in enumerate(rec):
+                args = all_args(c)
+                if max(b, ti[0]) >= len(args):
+                    continue
+                into_list = any(a[0] == "variant" and str(a[1]).endswith("::List") for a in pv.atoms(args[ti[0]]))
+                e = args[b]
+                while e.get("k") in ("DropTemps", "Use"):
+                    e = e["e"]
+                unchanged = e.get("k") == "Path" and e.get("local") == f.params[b]["local"]
+                if not into_list:
+                    continue
+                R.check("R03-h", "location-flag:%s#%d:%s" % (short(f.path), ci, bname), not unchanged,
+                        "the recursive call for list items does not inherit `%s`" % bname,
+                        "%s: callers compute `%s` from %s.%s of the argument / field whose type they pass, and the recursive call that descends "
+                        "into the items of a list passes it on unchanged: every item inherits an attribute of the enclosing location (a nullable "
+                        "variable is then accepted as an item of a list of non-null items)" % (f.path, bname, owner[0].split("::")[-1], owner[1]), loc=f.loc())
+
+
 def r03h(P, R):
     """recursion argument discipline in the typing helpers"""
     fns = [P.fns[p] for p in checker_scope(P)] + [f for f in P.fns.values() if f.path.startswith(CK + "types::")]
@@ -1781,6 +1978,7 @@ def r03h(P, R):
             uniq.append(f)
     n = recursion_args(P, R, "R03-h", uniq)
     R.floor("R03-h", "checked recursive argument positions", n, 6)
+    location_flags(P, R, uniq)
 
 
 ALL_KINDS = sorted(COMPOSITE | LEAF_OR_INPUT)
@@ -1991,40 +2189,7 @@ def r03j(P, R):
                "it is not the number of all operations in the document, so an anonymous operation next to other operations can pass"
                % (cond.get("op"), sorted(pats), op_fields),
                "the way the operations are counted (%s over %s) is not a form this rule reads" % (cond.get("op") or cond.get("k"), sorted(pats)), loc=e0.loc())
-    # memoisation / state-dependent skipping
-    e = e0
-    scope = [P.fns[p] for p in checker_scope(P) if p.startswith((CK, "<" + CK))]
-    const = constant_params(P, e, scope)
-    n_guards = 0
-    for f in scope:
-        sg = stateful_guards(f)
-        if not sg:
-            continue
-        fpv = Prov(f)
-        for i, g, t, blocks in sg:
-            n_guards += 1
-            missing, key, holder = memo_key_gaps(f, g, fpv)
-            cnames = {fpv.params.get(f.params[j]["local"]) for j in const.get(f.path, ()) if f.params[j].get("k") == "Binding"}
-            missing = [m for m in missing if m not in cnames]
-            exits = any(y.get("k") in ("Ret", "Continue", "Break") for b in blocks for y in subnodes(b))
-            ident = "state-guard:%s" % short(f.path)
-            if missing:
-                R.violated("R03-j", ident, "%s branches on mutable state (%s) keyed by %s%s; the skipped validation also depends on %s, "
-                           "so a construct can escape checking because a different context was checked first"
-                           % (f.path, t[:60], key or "nothing", " and exits early" if exits else "", missing), loc=f.loc())
-            else:
-                R.holds("R03-j", ident, "state-dependent guard whose key covers every non-constant input (%s)" % key)
-    R.count("state-dependent guards in the checker", n_guards)
-    R.holds("R03-j", "stateless-walk", "%d checker functions scanned; %d guards read interior-mutable or &mut state" % (len(scope), n_guards))
-    # positive control
-    import harness as H
-    from facts import Program
-    SC = Program(H.selfcheck_facts())
-    mf = SC.fn("selfcheck::memo_walk")
-    sg = stateful_guards(mf)
-    miss = memo_key_gaps(mf, sg[0][1], Prov(mf))[0] if sg else None
-    R.check("R03-pc", "memo-detector", bool(sg) and miss == ["vars"], "the memo-key detector reports selfcheck::memo_walk (missing: vars)",
-            "positive control not reported: %s" % (miss,))
+    # memoisation / state-dependent skipping is decided by the cross-cutting state rule R03-s (rules/xstate.py, templates.memo_rule)
 
 
 def _r04c(P, R):
@@ -2038,16 +2203,18 @@ RULES = [("R03-a", r03a), ("R03-b", r03b), ("R03-c", r03c), ("R03-d", r03d), ("R
 EXPLANATION = (
     "`check` applies every implemented rule at every position it governs, decided for all documents: (R03-a) non-interference — "
     "every content field of the executable AST is read by a function reachable from check_operation_document and the sum types are "
-    "dispatched exhaustively; (R03-b) fragment bodies reach the selection checker from the definition arm, spreads carry a cycle stack, "
+    "dispatched exhaustively, whether an element is handed to its checker depends on its kind only (never on its content or the file "
+    "it came from), and the CLI hands every operation document to the checker; (R03-b) fragment bodies reach the selection checker from the definition arm, spreads carry a cycle stack, "
     "and every composite (enclosing type, type condition) pair descends into the fragment body on every path; "
     "(R03-c) every AST position that can carry directives is passed to check_directives with exactly its spec location and with the "
     "operation's variables in scope, and check_directives enforces existence/location/repetition/arguments; (R03-d) an undefined "
     "variable type is reported; (R03-e) unknown-key counters count only provided keys; (R03-f) every operation-rule diagnostic keeps "
     "a construction site reachable and every positioned diagnostic ends up in the result; (R03-g) generate runs printers only on a "
-    "context built from a successful check; (R03-h) recursive typing helpers pass each parameter's component in its own position; "
+    "context built from a successful check; (R03-h) recursive typing helpers pass each parameter's component in its own position, and an attribute of the location "
+    "(computed by the callers from the definition whose type they pass) is not inherited by the items of a list; "
     "(R03-i) composite-kind tables, evaluated per type kind, and the agreement of the two selection-set rules. Tables are read by "
-    "abstract evaluation over kinds (any spelling of the control flow); anchors fall back from name to role. Not decided: exactness "
-    "of each rule's predicate on values.")
+    "abstract evaluation over kinds (any spelling of the control flow); anchors fall back from name to role. Memoisation / state-dependent skipping is decided by the "
+    "cross-cutting rule R03-s. Not decided: exactness of each rule's predicate on values.")
 ASSUMPTIONS = ["GraphQL spec (October 2021) directive locations and type kinds, transcribed by hand",
                "graphql_type_system::Schema lookups (get_type/get_directive) are exact"]
 
